@@ -74,6 +74,9 @@ FORMS = [
 SPECIAL_USAGES = {"class-keyword": ("Meta", "class Z%d(metaclass=%s):\n    pass\n\n\nprint(type(Z%d).__name__)"),
                   "class-base": ("Base", "class Z%d(%s):\n    pass\n\n\nprint(Z%d.__mro__[1].__name__)"),
                   "default-arg": ("TAG", "def fn%d(q=%s):\n    return q\n\n\nprint(fn%d())"),
+                  # the imported name only as the base of an attribute that is assigned / updated in place
+                  # (an attribute nothing else reads: rewriting `TAG` to `xmeta.TAG` must not become observable through the store)
+                  "attr-store": ("STORED", "ZS%d = 0\n%s = 'set'\nprint('stored', %d)"),
                   "decorator": ("deco", "@%s\ndef fn%d():\n    return 1\n\n\nprint(fn%d())")}
 USAGES = ["unused", "module", "function", "all-only"]
 ACTIONS = ["organize_imports", "expand_star_imports", "froms_to_imports", "relatives_to_absolutes", "handle_long_imports"]
@@ -140,7 +143,7 @@ class C07(Check):
     pid = "C07"
     level = "exploration"
     rule = ("cases = (target location in {project root, inside package xpk, inside sub-package xpk.xsub, a package's own __init__.py}, header in {none, docstring+comment}, block of <=2 (3) "
-            "import statements over 36 forms, usage of each in {unused, module level, inside a function, only in __all__; for two forms also class keyword (metaclass=), base class, default argument, decorator}); "
+            "import statements over 36 forms, usage of each in {unused, module level, inside a function, only in __all__; for two forms also class keyword (metaclass=), base class, default argument, decorator, target of an attribute assignment}); "
             "evaluations = one ImportOrganizer action per (case, action in 5, preference set in 5 (thorough) / default + split "
             "(quick)); oracle per performed action: modules compile; the target and a star-importing client print the same; a second "
             "application changes nothing; non-trivial = actions that changed the source; distinct by (source, action, prefs)")
